@@ -976,6 +976,13 @@ pub const STATIC_ERRORS: &[(&str, &str)] = &[
     ("missing arguments", "* | json | split on"),
     ("missing arguments", "* | json | sort by"),
     ("missing arguments", "* | json | count by"),
+    // duration literals: every fragment in range, the sum out of chrono's range — "not a duration", never a crash
+    ("duration out of range", "* | json | timeslice(parseDate(t)) 9999999999w9999999999w"),
+    ("duration out of range", "* | json | timeslice(parseDate(t)) 9223372036854775807ms1ms"),
+    ("duration out of range", "* | json | where d < 106751991167d7h12m55s808ms"),
+    ("duration out of range", "* | json | now() - 9999999999w9999999999w9999999999w as x"),
+    ("duration out of range", "* | json | sort by 9223372036854775807ms9223372036854775807ms"),
+    ("duration out of range", "* | json | timeslice(parseDate(t)) 99999999999999999999w"),
 ];
 
 fn static_variants(r: &mut Rng) -> (&'static str, String) {
